@@ -268,8 +268,27 @@ def run(ctx):
     streams, ndet, nsoup = gen_streams(ctx)
     cases = ["R " + hx(s) for s, _, _ in streams]
     inp = "\n".join(cases) + "\n"
-    rc1, out1 = ctx.run([impl], input=inp, mem_kb=12000000)
+    ctx.log("generated %d streams" % len(cases))
+    # streams that declare (almost) 2 GiB make the implementation allocate that much: they run in a process of their
+    # own with the collector off (under `ulimit -v` the Go collector makes a 2 GiB allocation take minutes)
+    import os
+    huge = [i for i, (s_, _, _) in enumerate(streams) if b"2147483647" in s_ or b"2147483646" in s_]
+    hset = set(huge)
+    small_inp = "\n".join(c for i, c in enumerate(cases) if i not in hset) + "\n"
+    rc1, out_small = ctx.run([impl], input=small_inp)
+    outs = {}
+    for i in huge:
+        env = dict(os.environ, GOGC="off")
+        rch, oh = ctx.run([impl], input=cases[i] + "\n", mem_kb=12000000, env=env)
+        rc1 = rc1 or rch
+        outs[i] = oh.splitlines()[0] if oh.splitlines() else "NOOUTPUT"
+    merged, it = [], iter(out_small.splitlines())
+    for i in range(len(cases)):
+        merged.append(outs[i] if i in hset else next(it, "MISSING"))
+    out1 = "\n".join(merged) + "\n"
+    ctx.log("implementation read them")
     rc2, out2 = ctx.run([model], input=inp)
+    ctx.log("model read them")
     if rc1 != 0 or rc2 != 0:
         ctx.broken("correspondence(c38:run-R)", "impl rc=%d model rc=%d %s %s" % (rc1, rc2, out1[-300:], out2[-300:]))
         return
@@ -320,6 +339,7 @@ def run(ctx):
     probes, lists = gen_messages(ctx)
     wcases = ["W " + " ".join(m) for m in probes + lists]
     rc4, out4 = ctx.run([impl], input="\n".join(wcases) + "\n")
+    ctx.log("writer/codec round trips done (%d lists)" % len(wcases))
     wl = out4.splitlines()
     if rc4 != 0 or len(wl) != len(wcases):
         ctx.broken("correspondence(c38:run-W)", "rc=%d lines=%d/%d %s" % (rc4, len(wl), len(wcases), out4[-300:]))
